@@ -7,6 +7,16 @@ of the package, every class through its MRO, static / class methods), never list
      declaration form (function, nested function, method, classmethod, staticmethod) x every
      receiver (base, subclass with / without a redefinition, two levels, through the class)
      x every argument shape.
+ L0H hierarchy exploration at decorator level: every class hierarchy over a small alphabet of per-class choices
+     {inherit, redefine the replacement, re-declare old AND new (as the package does for getValue), re-declare the old
+     name as an alias of the inherited replacement, define the old name as a plain method} - chains of depth <= 3 (4)
+     and diamonds - x {method, classmethod} x EVERY ACCESS PATH to an alias on the bottom class's receiver (ordinary
+     call, ``K.old(obj)`` for every K of the MRO, ``super(K, obj).old()`` for every K) x shapes x pools.  Reference
+     model (plain Python, on the abstract hierarchy): a path whose alias is the one the receiver itself resolves is
+     an ordinary call (it cannot be told apart from ``obj.old()``): the receiver's replacement; a path that reaches
+     an alias SHADOWED by a re-declaration further down is an explicit call of an ancestor's alias and must behave
+     like the same explicit call of the new name (``A.new(obj)`` / ``super(K, obj).new()``) - demanded only when all
+     explicit paths that reach that same alias agree on that function (otherwise: counted as undecidable).
  L1  dispatch probe, recipe-free, ALL (receiver class, alias) pairs: a throw-away subclass
      redefines the replacement as a recording sentinel, an ``object.__new__`` instance receives
      ``alias(*tokens, **kwtokens)``; plus the 'own' variant (the receiver class's *own*
@@ -14,6 +24,12 @@ of the package, every class through its MRO, static / class methods), never list
      object); module-level aliases are probed with the code swap.  Oracle: the sentinel is reached
      exactly once with exactly the tokens (identity), its token / exception comes back, exactly one
      DeprecationWarning that names the replacement, no log record, no output, receiver untouched.
+ L1X explicit calls of an ancestor's alias, ALL (receiver class, alias) pairs x receiver construction {throw-away
+     subclass that only redefines the replacement, throw-away subclass that RE-DECLARES old and new (with the real
+     decorator, as a class body)} x every explicit access path (``K.old(obj)``, ``super(K, obj).old()``, K over the
+     MRO) x shapes x pools; plus L1S: every alias of the package that is shadowed by a re-declaration in a real
+     subclass (Expression.getValue under the 31 classes that re-declare getValue) x every explicit path on the real
+     class.  Same reference model as L0H; the expected function is turned into the sentinel.
  TS  target sanity: the old name, snake-cased (documented suffixes removed), must identify the
      wrapper's target among the callables of the same scope.
  DP  ``deprecated_parameters``: every decorated callable x every subset (<= bound) of its obsolete
@@ -22,7 +38,9 @@ of the package, every class through its MRO, static / class methods), never list
  L2  paired behavioural calls old(*args) vs new(*args) on identically built real receivers from a
      recipe table (functions of models / draws / tools / version / results / segmentation, Expression,
      Database, IdManager, BIOGEME and bioResults methods); aliases without a recipe are *counted*
-     (layer2_uncovered_aliases).  Same for obsolete keywords: f(old=v) vs f(new=v).
+     (layer2_uncovered_aliases).  Same for obsolete keywords: f(old=v) vs f(new=v).  For aliases shadowed by a
+     re-declaration in the receiver's class: every explicit path, old vs new called the SAME way on real receivers
+     (``Expression.getValue(Numeric(2))`` vs ``Expression.get_value(Numeric(2))``, ``super(Numeric, e).getValue()`` ...).
 """
 from __future__ import annotations
 
